@@ -652,6 +652,10 @@ func (w *World) implFactLines() []string {
 	return out
 }
 
+// noRetry switches the lone retry off (the search for a binding of renamed locals proves the same function up to
+// twelve times; retries there would multiply)
+var noRetry bool
+
 func solveAll(w *World, obls []*Obligation, timeoutS, seed int) {
 	var wg sync.WaitGroup
 	for _, o := range obls {
@@ -769,6 +773,9 @@ func solveAll(w *World, obls []*Obligation, timeoutS, seed int) {
 	// second opinion under less load: an obligation that only timed out while everything ran at once is tried
 	// again alone (a loaded machine must not turn into an alarm); refutations and "unknown" stand
 	retried := 0
+	if noRetry {
+		return
+	}
 	for _, o := range obls {
 		if retried >= 5 {
 			break
